@@ -37,11 +37,12 @@ import (
 // ---------------------------------------------------------------- coqtop bridge
 
 type c18Coq struct {
-	cmd *exec.Cmd
-	in  io.WriteCloser
-	out *bufio.Reader
-	n   int
-	cur string
+	cmd    *exec.Cmd
+	in     io.WriteCloser
+	out    *bufio.Reader
+	n      int
+	cur    string
+	stepFn string // Coq function : rstate -> list (list N) -> rstate * list N
 }
 
 var c18NumRe = regexp.MustCompile(`\d+`)
@@ -53,7 +54,10 @@ func c18VerifRoot() string {
 	return "/verif"
 }
 
-func c18StartCoq() (*c18Coq, error) {
+func c18StartCoq() (*c18Coq, error) { return c18StartCoqWith("Model.Redis Model.RedisServer", "srv_step") }
+
+// c18StartCoqWith starts a coqtop that answers wire commands with the given server step function.
+func c18StartCoqWith(requires, stepFn string) (*c18Coq, error) {
 	cmd := exec.Command("coqtop", "-q", "-Q", filepath.Join(c18VerifRoot(), "coq"), "Cfg")
 	in, err := cmd.StdinPipe()
 	if err != nil {
@@ -67,8 +71,8 @@ func c18StartCoq() (*c18Coq, error) {
 	if err := cmd.Start(); err != nil {
 		return nil, err
 	}
-	c := &c18Coq{cmd: cmd, in: in, out: bufio.NewReaderSize(out, 1<<20), cur: "rinit"}
-	_, err = c.send("From Coq Require Import List NArith ZArith String.\nFrom Cfg Require Import Model.Redis Model.RedisServer.\n" +
+	c := &c18Coq{cmd: cmd, in: in, out: bufio.NewReaderSize(out, 1<<20), cur: "rinit", stepFn: stepFn}
+	_, err = c.send("From Coq Require Import List NArith ZArith String.\nFrom Cfg Require Import " + requires + ".\n" +
 		"Import ListNotations.\nOpen Scope N_scope.\nSet Printing Depth 100000000.\nSet Printing Width 100000000.\n")
 	if err != nil {
 		return nil, err
@@ -124,8 +128,8 @@ func (c *c18Coq) step(cmd [][]byte) ([]byte, [][2][]byte, error) {
 		parts[i] = c18CoqBytes(a)
 	}
 	r, s := fmt.Sprintf("c18r%d", c.n), fmt.Sprintf("c18s%d", c.n)
-	out, err := c.send(fmt.Sprintf("Definition %s := Eval vm_compute in srv_step %s [%s].\nDefinition %s := Eval vm_compute in fst %s.\nEval vm_compute in snd %s.",
-		r, c.cur, strings.Join(parts, ";"), s, r, r))
+	out, err := c.send(fmt.Sprintf("Definition %s := Eval vm_compute in %s %s [%s].\nDefinition %s := Eval vm_compute in fst %s.\nEval vm_compute in snd %s.",
+		r, c.stepFn, c.cur, strings.Join(parts, ";"), s, r, r))
 	if err != nil {
 		return nil, nil, err
 	}
@@ -213,17 +217,22 @@ type c18Server struct {
 func c18Sha(src string) string { h := sha1.Sum([]byte(src)); return hex.EncodeToString(h[:]) }
 
 func c18StartServer(coq *c18Coq) (*c18Server, error) {
-	ln, err := net.Listen("tcp", "127.0.0.1:0")
-	if err != nil {
-		return nil, err
-	}
-	s := &c18Server{ln: ln, coq: coq, subs: map[string]map[*c18Conn]struct{}{}, scripts: map[string]string{
+	return c18StartServerWith(coq, map[string]string{
 		c18Sha(addHistoryStreamSource):  "broker_history_add_stream",
 		c18Sha(addHistoryListSource):    "broker_history_add_list",
 		c18Sha(historyStreamSource):     "broker_history_stream",
 		c18Sha(historyListSource):       "broker_history_list",
 		c18Sha(publishIdempotentSource): "broker_publish_idempotent",
-	}}
+	})
+}
+
+// c18StartServerWith starts the fake RESP3 server knowing the given scripts (sha1 hex -> name).
+func c18StartServerWith(coq *c18Coq, scripts map[string]string) (*c18Server, error) {
+	ln, err := net.Listen("tcp", "127.0.0.1:0")
+	if err != nil {
+		return nil, err
+	}
+	s := &c18Server{ln: ln, coq: coq, subs: map[string]map[*c18Conn]struct{}{}, scripts: scripts}
 	go func() {
 		for {
 			c, err := ln.Accept()
